@@ -49,7 +49,6 @@ Proof.
   - unfold get_source_of.
     pose proof (get_source_total (S (m_size (m s1))) s1 i) as [G1 G2].
     destruct (get_source (S (m_size (m s1))) s1 i) as [org| | |]; try congruence; auto with c04.
-    destruct (is_dir (e_ty (obj s1 org))); auto with c04.
   - apply IH; assumption.
 Qed.
 
@@ -159,26 +158,35 @@ Section Visit.
         * right. exists vis''. split; [exact E2|]. eapply sub_trans; eassumption.
   Qed.
 
-  Lemma map_children_good : forall fuel id vis,
-    unvisited vis < fuel -> good vis (map_children fuel s id vis).
+  Lemma visit_good (rej desc : entry -> bool) : forall fuel id vis,
+    unvisited vis < fuel -> good vis (visit rej desc fuel s id vis).
   Proof.
     induction fuel as [|f IH]; intros id vis Hv; [lia|].
-    simpl. destruct (is_hardlink (e_ty (obj s id))); [left; reflexivity|].
+    simpl. destruct (rej (obj s id)); [left; reflexivity|].
     destruct (mem_name (e_name (obj s id)) vis) eqn:Em.
     - right. exists vis. split; [reflexivity|apply sub_refl].
     - pose proof (unvisited_visit _ _ (obj_name_in_univ id) Em) as Hlt.
-      destruct (go_children_good (map_children f s) f (fun c v Hc => IH c v Hc) (children s id) (e_name (obj s id) :: vis)) as [E|[vis' [E Hs]]].
+      assert (Hrec : forall c v, unvisited v < f ->
+                good v (if desc (obj s c) then visit rej desc f s c v else Ok v)).
+      { intros c v Hc. destruct (desc (obj s c)); [apply IH; exact Hc|].
+        right. exists v. split; [reflexivity|apply sub_refl]. }
+      destruct (go_children_good _ f Hrec (children s id) (e_name (obj s id) :: vis)) as [E|[vis' [E Hs]]].
       + lia.
       + left. exact E.
       + right. exists vis'. split; [exact E|]. eapply sub_trans; [apply sub_cons|exact Hs].
   Qed.
 
-  Lemma assign_ids_total root : total (assign_ids s root).
+  Lemma visit_total rej desc root : total (visit rej desc (S (S (length (objs s)))) s root []).
   Proof.
-    unfold assign_ids.
-    destruct (map_children_good (S (S (length (objs s)))) root []) as [E|[vis' [E _]]].
-    - pose proof (unvisited_le_univ []). unfold univ in H. simpl in H. rewrite map_length in H. lia.
+    destruct (visit_good rej desc (S (S (length (objs s)))) root []) as [E|[vis' [E _]]].
+    - pose proof (unvisited_le_univ []) as H. unfold univ in H. simpl in H. rewrite map_length in H. lia.
     - rewrite E. auto with c04.
     - rewrite E. auto with c04.
   Qed.
+
+  Lemma assign_ids_total root : total (assign_ids s root).
+  Proof. apply visit_total. Qed.
+
+  Lemma walk_dirs_total root : total (walk_dirs s root).
+  Proof. apply visit_total. Qed.
 End Visit.
